@@ -28,9 +28,9 @@ def write_cfg(name, text):
     return p
 
 
-def cfg(rates, mt, mc, mcb, extra, spec="Spec"):
-    return "SPECIFICATION %s\nCONSTANTS\n  Rates = {%s}\n  MaxTracks = %d\n  MaxChanges = %d\n  MaxCb = %d\n%s\nCHECK_DEADLOCK FALSE\n" % (
-        spec, ", ".join(map(str, rates)), mt, mc, mcb, extra)
+def cfg(rates, mt, mc, mcb, extra, spec="Spec", split=False):
+    return "SPECIFICATION %s\nCONSTANTS\n  Rates = {%s}\n  MaxTracks = %d\n  MaxChanges = %d\n  MaxCb = %d\n  SplitChange = %s\n%s\nCHECK_DEADLOCK FALSE\n" % (
+        spec, ", ".join(map(str, rates)), mt, mc, mcb, "TRUE" if split else "FALSE", extra)
 
 
 def run(tier):
@@ -43,11 +43,19 @@ def run(tier):
     if st["violated"]:
         res.drift.append({"model": "SampleRate", "violated": st["violated"]})
     res.add_mc("SampleRate", st)
+    st = tlc_check("SampleRate.tla", write_cfg("SampleRate_split.cfg", cfg([8, 16], 2, 2, 3, "INVARIANT PropertyHolds", split=True)),
+                   workers=8, timeout=3000, tag="c16mc")
+    if st["violated"]:
+        res.drift.append({"model": "SampleRate/split", "violated": st["violated"]})
+    res.add_mc("SampleRate with the rate-change call in three stretches", st)
     tlc_check("SampleRate.tla", write_cfg("SampleRate_w.cfg", cfg([8, 16], 1, 1, 2, "INVARIANT W_D12")), workers=4, timeout=600,
               expect_violation="W_D12", tag="c16w")
     num = 600 if q else 6000
     bs = tlc_generate("Gen_SampleRate.tla", write_cfg("Gen_SampleRate.cfg", cfg([8, 10, 20, 40], 4, 3, 6, "  D = 22\nCONSTRAINT Bound\nINVARIANT Dump\n", spec="GSpec")),
                       "sim", num=num, depth=24, timeout=1500, tag="c16g")[:num * 2]
+    bs2 = tlc_generate("Gen_SampleRate.tla", write_cfg("Gen_SampleRate_split.cfg", cfg([8, 10, 20, 40], 3, 2, 5, "  D = 24\nCONSTRAINT Bound\nINVARIANT Dump\n", spec="GSpec", split=True)),
+                       "sim", num=num, depth=26, timeout=1500, tag="c16g")[:num]
+    bs = bs + bs2
     scen = []
     kinds = ["sub", "nested", "send", "spatial"]
     split_kinds = ["sub", "nested", "spatial"]    # kinds whose add call has a yield point between the rate load and the enqueue
